@@ -243,7 +243,7 @@ impl Property for Prop {
             "histories" => {
                 let mut w = World::new(slots, some_table());
                 let pool = Pool::new(&mut rng);
-                let st_hint = RxState { name: "c08", slots, pdu_size: BASE, mem: dvb_gse_rust::gse_decap::SimpleGseMemory::new(slots, BASE, 0, 0), prime: None, table: some_table(), open_ids: vec![] };
+                let st_hint = RxState { name: "c08", slots, pdu_size: BASE, mem: dvb_gse_rust::gse_decap::SimpleGseMemory::new(slots, BASE, 0, 0), prime: None, table: some_table(), open_ids: vec![], rebuild: None };
                 let mut open: Vec<(u8, Vec<u8>, u16, u16, Vec<u8>)> = Vec::new();
                 let n = 200 + rng.below(if cx.quick() { 800 } else { 2800 });
                 let mut recent: Vec<String> = Vec::new();
